@@ -62,4 +62,36 @@ def applyShocks [LT α] [DecidableLT α] [Add α] [Mul α] [Neg α] (ofNat : Nat
     let v := clip (p.getD sh.idx dflt + shift) (lo.getD sh.idx dflt) (hi.getD sh.idx dflt)
     applyShocks ofNat prec lo hi dflt (p.set sh.idx v) rest
 
+/-! ### particle swarm: when a call starts the swarm and when it updates from the history
+(`ParticleSwarmSampler.sample_batch`, `_set_up`, `_update_best`; positions and velocities are arbitrary and not modelled) -/
+
+/-- the part of the swarm's state that decides what is read from the history -/
+structure Pso where
+  setUp : Bool           -- `is_set_up`
+  prevStart : Nat        -- `_previous_batch_index_start`
+deriving DecidableEq, Repr
+
+/-- what a `sample_batch` call does with the history it is given -/
+inductive PsoAct
+  | start                      -- `_set_up`: fresh positions, nothing read from the history
+  | update (n lo hi : Nat)     -- `_update_best`: `argmin` over the `n` losses; the particles' own points are rows `lo ≤ i < hi`
+deriving DecidableEq, Repr
+
+def Pso.init : Pso := ⟨false, 0⟩
+
+/-- `sample_batch(…, existing_points, existing_losses)` with `n = len(existing_points)`, `bs = batch_size`:
+the swarm starts when it is not set up **or no point has been evaluated yet** -/
+def Pso.sampleBatch (bs : Nat) (p : Pso) (n : Nat) : Pso × PsoAct :=
+  if !p.setUp || n == 0 then (⟨true, n⟩, .start) else (⟨true, n⟩, .update n p.prevStart (p.prevStart + bs))
+
+/-- the pinned commit: starts only when not set up -/
+def Pso.sampleBatchPinned (bs : Nat) (p : Pso) (n : Nat) : Pso × PsoAct :=
+  if !p.setUp then (⟨true, n⟩, .start) else (⟨true, n⟩, .update n p.prevStart (p.prevStart + bs))
+
+/-- the calls of one sampler object over a calibration: `ns` are the history lengths it is handed (a failed batch hands the
+same length again; a calibrator always hands a length that never decreases, but nothing here needs that) -/
+def Pso.run (step : Pso → Nat → Pso × PsoAct) (p : Pso) : List Nat → List PsoAct
+  | [] => []
+  | n :: ns => (step p n).2 :: Pso.run step (step p n).1 ns
+
 end BlackIt.Samplers
